@@ -559,6 +559,63 @@ func gCase(c caseT) string {
 	return "WGCase " + progs + " " + sched + " " + gal.ListOf(c.Obs, gItem) + " " + fmt.Sprint(c.Tmo)
 }
 
+// encCase packs a case into 60-bit words of five 12-bit fields (signed values offset by 2048):
+//
+//	nthreads, then per thread: ncalls, then per call: kind (0 add, 1 wait), delta
+//	tmo, nsteps, then per step: tid, event (0 call, 1 ret, 2 tau, 3 stutter, 4 ret-panic),
+//	call kind, call delta, value, Count(), site, nclosed, closed...
+//
+// WGJudge.decode_case reads it back.  Elaborating such a literal costs a few ms per case, the
+// readable constructor form cost 20-35 ms.
+func encCase(c caseT) string {
+	var f []int
+	sgn := func(v int) int { return v + 2048 }
+	f = append(f, len(c.Progs))
+	for _, p := range c.Progs {
+		f = append(f, len(p))
+		for _, cl := range p {
+			k := 0
+			if cl.K != "add" {
+				k = 1
+			}
+			f = append(f, k, sgn(cl.D))
+		}
+	}
+	f = append(f, c.Tmo, len(c.Obs))
+	for _, it := range c.Obs {
+		ev := map[string]int{"call": 0, "ret": 1, "tau": 2, "stutter": 3}[it.Ev]
+		if it.Panic {
+			ev = 4
+		}
+		k, d := 0, 0
+		if it.Call != nil {
+			if it.Call.K != "add" {
+				k = 1
+			}
+			d = it.Call.D
+		}
+		f = append(f, it.Tid, ev, k, sgn(d), sgn(it.Val), sgn(it.Count), it.Site, len(it.Closed))
+		f = append(f, it.Closed...)
+	}
+	for _, v := range f {
+		if v < 0 || v > 4095 {
+			panic(fmt.Sprintf("field %d does not fit 12 bits", v))
+		}
+	}
+	var words []string
+	for i := 0; i < len(f); i += 5 {
+		var w uint64
+		for k := 0; k < 5 && i+k < len(f); k++ {
+			w |= uint64(f[i+k]) << (12 * uint(k))
+		}
+		words = append(words, fmt.Sprint(w))
+	}
+	// the scope delimiter makes the numerals primitive integers wherever the term is used
+	return "[" + strings.Join(words, ";") + "]%uint63"
+}
+
+var readable = false
+
 type emitter struct {
 	out  *gal.Out
 	seen map[string]bool
@@ -566,13 +623,19 @@ type emitter struct {
 }
 
 func (e *emitter) emit(c caseT) {
-	key := fmt.Sprint(c.Progs, c.Sched)
-	if e.seen[key] {
-		e.dup++
-		return
+	if e.seen != nil {
+		key := fmt.Sprint(c.Progs, c.Sched)
+		if e.seen[key] {
+			e.dup++
+			return
+		}
+		e.seen[key] = true
 	}
-	e.seen[key] = true
-	e.out.Case(gCase(c), c)
+	if readable {
+		e.out.Case(gCase(c), c)
+	} else {
+		e.out.Case(encCase(c), c)
+	}
 }
 
 // ---------------------------------------------------------------- free-running stress
@@ -684,6 +747,7 @@ func main() {
 	maxCases := flag.Int("max", 200000, "stop enumerating after this many cases per program")
 	tmoEvery := flag.Int("tmoevery", 1, "probe WaitTimeout on every k-th case (0 = never)")
 	file := flag.String("file", "", "replay: JSON file with progs and sched")
+	flag.BoolVar(&readable, "readable", false, "write the cases as readable WGCase terms instead of packed words")
 	flag.Parse()
 	if *mode == "stress" {
 		if stress(*seed, *n) > 0 {
@@ -717,9 +781,13 @@ func main() {
 			em.emit(runCase("corpus", c.name, withProbe(c.progs), &fixedChooser{sched: append([]int{}, c.sched...)}, true))
 		}
 	case "replay":
-		var rep struct {
+		type repT struct {
 			Progs [][]callT `json:"progs"`
 			Sched []int     `json:"sched"`
+		}
+		var rep struct {
+			repT
+			Batch []repT `json:"batch"`
 		}
 		b, err := os.ReadFile(*file)
 		if err == nil {
@@ -729,8 +797,15 @@ func main() {
 			fmt.Fprintln(os.Stderr, err)
 			os.Exit(2)
 		}
-		// the recorded programs already contain the probe thread
-		em.emit(runCase("replay", "replay", rep.Progs, &fixedChooser{sched: rep.Sched}, true))
+		// the recorded programs already contain the probe thread; duplicates are kept so that
+		// the output stays index-aligned with the batch
+		em.seen = nil
+		if len(rep.Batch) == 0 {
+			rep.Batch = []repT{rep.repT}
+		}
+		for _, one := range rep.Batch {
+			em.emit(runCase("replay", "replay", one.Progs, &fixedChooser{sched: append([]int{}, one.Sched...)}, true))
+		}
 	case "random":
 		for _, np := range sel {
 			for i := 0; i < *n; i++ {
@@ -752,16 +827,19 @@ func main() {
 			if *mode == "exhaustive" {
 				d.pre = -1
 			}
-			cnt := 0
+			cnt, steps := 0, 0
 			for {
 				d.begin()
-				em.emit(runCase(*mode, np.name, withProbe(np.progs), d, probe()))
+				cs := runCase(*mode, np.name, withProbe(np.progs), d, probe())
+				steps += len(cs.Obs)
+				em.emit(cs)
 				cnt++
 				if !d.advance() || cnt >= *maxCases {
 					break
 				}
 			}
-			fmt.Printf("ENUM program=%q mode=%s schedules=%d complete=%v\n", np.name, *mode, cnt, cnt < *maxCases)
+			fmt.Printf("ENUM program=%q mode=%s pre=%d threads=%d schedules=%d steps=%d complete=%v\n",
+				np.name, *mode, d.pre, len(np.progs), cnt, steps, cnt < *maxCases)
 		}
 	}
 	fmt.Printf("CASES %d (duplicates dropped: %d)\n", em.out.N, em.dup)
